@@ -32,13 +32,13 @@ PROP = dict(
              args=["mode=trunc", "chunks=16", "poison=1"], tier_args={Q: ["L=4", "N=5", "lra_cases=160"], T: ["L=6", "N=6", "every_state=1", "lra_cases=1600"]},
              max_restarts=100000),
     ],
-    min_nontrivial={Q: 5500, T: 250000},
-    coverage_floor=[("c08_unified", "comparisons_file_after_write", {Q: 18000, T: 1500000}),
-                    ("c08_unified", "rewinds", {Q: 5000, T: 400000}),
-                    ("c08_trunc", "prefixes", {Q: 300000, T: 20000000}),
-                    ("c08_trunc", "reads_exact", {Q: 1000000, T: 60000000}),
-                    ("c08_trunc", "reads_refused", {Q: 500000, T: 50000000}),
-                    ("c08_trunc", "prefixes_ending_on_a_step_boundary", {Q: 150, T: 10000})],
+    min_nontrivial={Q: 5500, T: 192499},
+    coverage_floor=[("c08_unified", "comparisons_file_after_write", {Q: 18000, T: 884155}),
+                    ("c08_unified", "rewinds", {Q: 5000, T: 245598}),
+                    ("c08_trunc", "prefixes", {Q: 300000, T: 3515625}),
+                    ("c08_trunc", "reads_exact", {Q: 1000000, T: 11718750}),
+                    ("c08_trunc", "reads_refused", {Q: 500000, T: 5859375}),
+                    ("c08_trunc", "prefixes_ending_on_a_step_boundary", {Q: 150, T: 1757})],
     exhaustive_subspaces=[
         "c08_unified: all sequences of 1..L report-step writes over steps 0..N x {unformatted, formatted}: L=4, N=4 (quick: 780 sequences per format), L=6, N=5 (thorough: 55986 per format)",
         "c08_trunc: every truncation offset 0..size of every file examined (quick: final file of 128 random sequences; thorough: the "
